@@ -3,12 +3,16 @@ package props
 // Observation of the real parser.
 
 import (
+	"encoding/json"
 	"errors"
 	"fmt"
 	"os"
+	"path/filepath"
 	"reflect"
 	"sort"
 	"strings"
+	"sync"
+	"time"
 
 	flags "github.com/jessevdk/go-flags"
 )
@@ -114,6 +118,8 @@ func RunReal(d *Decl, args []string, env map[string]string, cfg *RealCfg) *RealR
 			return nil
 		}
 	}
+	hangGuard(d, args)
+	defer hangDone()
 	withEnv(env, func() {
 		rr.Panic = Safely(func() {
 			if cfg.Ini != "" {
@@ -245,3 +251,50 @@ func sortedKeys(m map[string]reflect.Value) []string {
 
 // envSafe: environment values cannot contain NUL.
 func envSafe(s string) string { return strings.ReplaceAll(s, "\x00", "0") }
+
+// ---- generic hang guard around calls into the library ----
+// A parse that does not return is a C04 violation ("never hangs"). Whatever
+// property is being checked, the process must not spin until the driver's
+// timeout: the case is saved in C04's format and the process exits with code 4
+// (the driver reports the run as inconclusive unless it is C04's own run, which
+// has its own recording watchdog).
+
+var (
+	hgMu    sync.Mutex
+	hgCase  *ParseCase
+	hgSince time.Time
+	hgOnce  sync.Once
+)
+
+func hangGuard(d *Decl, args []string) {
+	hgOnce.Do(func() {
+		go func() {
+			for {
+				time.Sleep(time.Second)
+				hgMu.Lock()
+				c, since := hgCase, hgSince
+				hgMu.Unlock()
+				if c != nil && time.Since(since) > 30*time.Second {
+					dir := os.Getenv("VERIF_FAILDIR")
+					if dir != "" {
+						os.MkdirAll(dir, 0o755)
+						cb, _ := json.Marshal(c)
+						b, _ := json.MarshalIndent(FailFile{Property: "C04", Message: "HANG: ParseArgs did not return within 30s", Case: cb}, "", " ")
+						os.WriteFile(filepath.Join(dir, "HANG-C04.json"), b, 0o644)
+					}
+					fmt.Printf("HANG-IN-LIBRARY-CALL args=%q\n", truncArgs(c.Args))
+					os.Exit(4)
+				}
+			}
+		}()
+	})
+	hgMu.Lock()
+	hgCase, hgSince = &ParseCase{D: d, Args: args}, time.Now()
+	hgMu.Unlock()
+}
+
+func hangDone() {
+	hgMu.Lock()
+	hgCase = nil
+	hgMu.Unlock()
+}
